@@ -53,6 +53,7 @@ fn bump(m: &mut BTreeMap<String, u64>, k: &str) { *m.entry(k.to_string()).or_ins
 /// Which properties a violation class belongs to.
 fn properties_of(class: &str, op: &Op) -> Vec<String> {
   let indexed_matrix_write = matches!(op, Op::IdxAssign { .. } | Op::OpAssign { .. });
+  let _ = Op::MapAssign { name: String::new(), key: SV::Empty, e: Expr::Lit(SV::Empty) };
   let c04: &[&str] = &["addressed-element-wrong", "frame-violated", "shape-or-kind-changed", "op-assign-arithmetic-wrong", "readback-mismatch"];
   let both: &[&str] = &["torn-write", "missing-rejection", "wrong-rejection"];
   let mut out = vec![];
@@ -283,6 +284,7 @@ fn classify_ok_diffs(op: &Op, verdict: &Verdict, pre: &MStore, expected: &MStore
         let (a, b) = (origin_tag(pre, n), origin_tag(pre, &t0));
         let via = if a.ends_with("<-field") || b.ends_with("<-field") { "via-field-access" }
           else if a.ends_with("<-tuple-elem") || b.ends_with("<-tuple-elem") { "via-tuple-element-access" }
+          else if a.ends_with("<-map-get") || b.ends_with("<-map-get") { "via-map-access" }
           else if a.starts_with("destructure") || b.starts_with("destructure") { "via-destructure" }
           else if a.ends_with("<-var") || b.ends_with("<-var") { "via-define-from-variable" }
           else if a.ends_with("<-var-idx") || b.ends_with("<-var-idx") { "via-index-access" }
